@@ -26,17 +26,24 @@ def reexec_deterministic():
         env = dict(os.environ)
         env['PYTHONHASHSEED'] = '0'
 
-        # a replay file names the hash seed of the process that found it
+        flags = []
+
+        # a replay file names the hash seed and the interpreter flags of
+        # the process that found it
         if '--replay' in sys.argv[:-1]:
             try:
                 with open(sys.argv[sys.argv.index('--replay') + 1]) as fp:
-                    env['PYTHONHASHSEED'] = str(int(
-                        json.load(fp).get('hashseed', 0)))
+                    rf = json.load(fp)
+
+                env['PYTHONHASHSEED'] = str(int(rf.get('hashseed', 0)))
+                flags = [f for f in str(rf.get('pyflags', '')).split()
+                         if f in ('-O', '-OO', '-b', '-bb')]
+                env['VERIF_PYFLAGS'] = ' '.join(flags)
             except Exception:
                 pass
 
         env['PYTHONDONTWRITEBYTECODE'] = '1'
-        os.execve(sys.executable, [sys.executable] + sys.argv, env)
+        os.execve(sys.executable, [sys.executable] + flags + sys.argv, env)
 
 
 def main():
